@@ -47,7 +47,7 @@ def strategy(tier):
     big = tier != "quick"
     seed16 = st.integers(0, 2 ** 16 - 1)
     ref = st.integers(0, 23)
-    sl_b = st.one_of(st.none(), st.integers(-5, 5))
+    sl_b = st.one_of(st.none(), st.integers(-5, 5), st.integers(0, 9))
     item = st.one_of(
         st.fixed_dictionaries({"t": st.just("int"), "i": st.integers(-4, 3)}),
         st.fixed_dictionaries({"t": st.just("slice"), "a": sl_b, "b": sl_b,
@@ -66,7 +66,9 @@ def strategy(tier):
         "kind": st.sampled_from(["arr", "arr", "arr", "arr", "arr", "arr", "arr", "arr", "pyfloat", "pycomplex",
                                  "npfloat", "npcomplex"]),
         "shape": st.one_of(st.lists(st.integers(1, 4), min_size=1, max_size=3),
-                           st.lists(st.integers(1, 4), min_size=0, max_size=3)), "cplx": st.booleans(),
+                           st.lists(st.integers(1, 4), min_size=0, max_size=3),
+                           # long vectors: room for nested slices whose inner part runs past the end of the outer block
+                           st.lists(st.integers(6, 12), min_size=1, max_size=1)), "cplx": st.booleans(),
         "init_sens": st.booleans(), "like0": st.booleans()})
 
     def op(name, **kw):
